@@ -295,6 +295,8 @@ func TestVerif_C20R(t *testing.T) {
 		res.bump("histories")
 	}
 	// through New(): channels -> event loop -> save timer -> restart
+	// crash points and failing file operations in the save path, start-up next to leftovers
+	c20rFaults(t, res, dir)
 	c20rLoops(t, res, dir)
 
 	shards := 1
@@ -317,6 +319,8 @@ func TestVerif_C20R(t *testing.T) {
 		sb.WriteString(strings.Join(cases[lo:hiX], ";\n"))
 		sb.WriteString("\n].\n")
 		sb.WriteString("Definition c20r_mismatches := Eval vm_compute in map (fun i => (i + " + fmt.Sprint(lo) + ")%nat) (mismatches (fun h => negb (rcheck [] h)) histories).\nPrint c20r_mismatches.\n")
+		sb.WriteString("(* mismatching histories in which an OBSERVED save-and-restart lost, kept too much of, or reordered the state observed before it *)\n")
+		sb.WriteString("Definition c20r_violating := Eval vm_compute in map (fun i => (i + " + fmt.Sprint(lo) + ")%nat) (mismatches (fun h => negb (rcheck [] h) && robs_violation [] h) histories).\nPrint c20r_violating.\n")
 		sb.WriteString("Definition c20r_ncases := Eval vm_compute in fold_left (fun n (h : list (rop * robs)) => (n + N.of_nat (length h))%N) histories 0%N.\nPrint c20r_ncases.\n")
 		name := "CasesC20R.v"
 		if s > 0 {
